@@ -8,13 +8,14 @@ namespace Mrm
 
 /-! ### C03 — what a message may touch -/
 
-/-- IDs of the children a merge of class `k` may add, remove, replace or move -/
-def touchedIds (k : Kind) (tag : String) (nm : Named) : List Key :=
-  let cids := nm.carried.map (keyOf tag)
+/-- IDs of the children already in the running order that a merge of class `k` may remove, replace
+    or move.  Carried elements are recognised by deep equality (`isTouched`), not by their ID: an
+    element of the running order that merely shares its ID with a carried one is NOT named. -/
+def touchedIds (k : Kind) (_tag : String) (nm : Named) : List Key :=
   let tgt := match nm.target with | some t => [t] | none => []
   match k.group with
-  | .append | .insert => cids
-  | .replace => tgt ++ cids
+  | .append | .insert => []
+  | .replace => tgt
   | .move | .delete | .swap => nm.sources
   | .send => tgt
   | .none => []
